@@ -23,6 +23,8 @@ PLAYBACK_TARGET = os.environ.get("VERIF_KANI_PLAYBACK_TARGET", os.path.join(CACH
 OUT_GLOB = os.path.join(TARGET, "kani", "x86_64-unknown-linux-gnu", "debug", "build", "rs-matter", "*", "out",
                         "*.kani-metadata.json")
 
+DEV_SLOTS = "/scratch/slots"
+
 CBMC_FLAGS = ["--no-malloc-may-fail", "--no-undefined-shift-check", "--no-signed-overflow-check", "--nan-check",
               "--no-self-loops-to-assumptions", "--no-pointer-primitive-check", "--object-bits", "16",
               "--sat-solver", "cadical"]
@@ -45,13 +47,12 @@ def kani_env():
 def build(timeout=3600):
     """Compile /repo's working tree with every harness. Returns dict(ok, seconds, log, harnesses)."""
     slot = None
-    if os.environ.get("VERIF_BUILD_SLOTS"):
-        # development only: bound the number of concurrent kani-compiler processes (7.5 GB RSS each)
+    if os.path.isdir(DEV_SLOTS):
+        # development only (the directory does not exist in a fresh sandbox): bound the number of concurrent
+        # kani-compiler processes machine-wide (7-9 GB RSS each)
         import fcntl
-        d, n = os.environ["VERIF_BUILD_SLOTS"].rsplit(":", 1)
-        os.makedirs(d, exist_ok=True)
-        n = min(int(n), 2)
-        k = int(os.environ.get("VERIF_BUILD_SLOT", "0")) % int(n)
+        d, n = DEV_SLOTS, 2
+        k = (int(os.environ.get("VERIF_BUILD_SLOT", "0")) if os.environ.get("VERIF_BUILD_SLOT") else os.getpid()) % int(n)
         slot = open(os.path.join(d, "slot%d" % k), "w")
         fcntl.flock(slot, fcntl.LOCK_EX)
     with Lock("kani-build-" + sha256_text(TARGET)[:8]):
@@ -165,11 +166,14 @@ def run_harness(h, workdir, timeout=600, trace=False):
     if os.environ.get("VERIF_CBMC_MEM_GB"):
         launch = ["bash", "-c", "ulimit -v %d; exec \"$@\"" % (int(os.environ["VERIF_CBMC_MEM_GB"]) << 20), "cbmc-limited"] + cmd
     gate = None
-    if os.environ.get("VERIF_BUILD_SLOTS"):
+    if os.path.isdir(DEV_SLOTS):
         # development only: a machine-wide bound on concurrent CBMC processes (several GB each)
         import fcntl, random
-        d = os.environ["VERIF_BUILD_SLOTS"].rsplit(":", 1)[0]
-        nslots = 5
+        d = DEV_SLOTS
+        try:
+            nslots = int(open(os.path.join(d, "cbmc.max")).read())
+        except (OSError, ValueError):
+            nslots = 4
         order = list(range(nslots))
         random.shuffle(order)
         while gate is None:
